@@ -62,6 +62,9 @@ Definition user_trace (s : sim) : list (nat * Z) :=
                       | HWarm => []
                       end) (rev (trace s)).
 
+(* creation indices of the events cancel_event really removed, oldest first *)
+Definition user_canc (s : sim) : list nat := map ev_k (rev (cancelled s)).
+
 Definition user_obs (s : sim) : list obsrec :=
   filter (fun o => match o with ObsV _ _ _ => true | _ => false end) (rev (obs s)).
 
@@ -71,6 +74,7 @@ Record expect := mkExpect {
   x_outs : list outcome;
   x_ntfs : list ntf;
   x_obs : list obsrec;
+  x_canc : list nat;
   x_alive : bool
 }.
 
@@ -96,6 +100,7 @@ Definition case_code (c : scase) : nat :=
           && list_eqb outcome_eqb (rev (outs s)) (x_outs x)
           && list_eqb ntf_eqb (rev (ntfs s)) (x_ntfs x)
           && list_eqb obsrec_eqb (user_obs s) (x_obs x)
+          && list_eqb Nat.eqb (user_canc s) (x_canc x)
           && Bool.eqb (match worker s with WAlive => true | _ => false end) (x_alive x)
        then 0%nat else 1%nat.
 
@@ -113,8 +118,9 @@ Definition case_diff (c : scase) : list bool :=
   [flag s; list_eqb snap_eqb sn (x_snaps x); list_eqb kc_eqb (user_trace s) (x_trace x);
    list_eqb outcome_eqb (rev (outs s)) (x_outs x); list_eqb ntf_eqb (rev (ntfs s)) (x_ntfs x);
    list_eqb obsrec_eqb (user_obs s) (x_obs x);
+   list_eqb Nat.eqb (user_canc s) (x_canc x);
    Bool.eqb (match worker s with WAlive => true | _ => false end) (x_alive x)].
 
 Definition case_view (c : scase) :=
   let '(s, sn) := run_case c in
-  (sn, user_trace s, rev (outs s), rev (ntfs s), user_obs s, worker s).
+  (sn, user_trace s, rev (outs s), rev (ntfs s), user_obs s, user_canc s, worker s).
